@@ -45,6 +45,27 @@ def semantic_faults(r):
         ("bad-copy", ("copy", ("sym", "seven"), [("a", ("int", 1))])),
         ("not-a-function", ("call", ("sym", "seven"), [("int", 1)])),
         ("wrong-arity", ("call", ("sym", "idf"), [("int", 1), ("int", 2)])),
+        # the same faults with operands that are names bound in earlier statements: the diagnostic must
+        # point at the use, not at the definition of the operand
+        ("type-mismatch", ("bin", "+", ("sym", "seven"), ("sym", "word"))),
+        ("type-mismatch", ("bin", "*", ("sym", "seven"), ("sym", "word"))),
+        ("type-mismatch", ("bin", "+", ("sym", "word"), ("sym", "seven"))),
+        ("type-mismatch", ("bin", "<", ("sym", "word"), ("sym", "seven"))),
+        ("type-mismatch", ("bin", "&&", ("sym", "yes"), ("sym", "seven"))),
+        ("type-mismatch", ("not", ("sym", "seven"))),
+        ("missing-field", ("sel", ("sym", "rec"), ("f", "zz"))),
+        ("index-out-of-range", ("sel", ("sym", "lst"), ("i", 5))),
+        ("unhandled-select", ("select", ("sym", "word"), None, [("a", ("int", 1))])),
+        ("failed-cast", ("cast", "int", ("sym", "word"))),
+        ("bad-copy", ("copy", ("sym", "rec"), [("a", ("sym", "word"))])),
+        # ... and with operands that are results of calling a function defined in an earlier statement
+        ("failed-cast", ("cast", "int", ("call", ("sym", "idf"), [("str", "x1")]))),
+        ("type-mismatch", ("bin", "+", ("int", 1), ("call", ("sym", "idf"), [("str", "a")]))),
+        ("type-mismatch", ("bin", "&&", ("bool", True), ("call", ("sym", "idf"), [("int", 1)]))),
+        ("type-mismatch", ("bin", "in", ("int", 1), ("call", ("sym", "idf"), [("int", 2)]))),
+        ("bad-copy", ("copy", ("sym", "rec"), [("a", ("call", ("sym", "idf"), [("str", "w")]))])),
+        ("missing-field", ("sel", ("call", ("sym", "idf"), [("sym", "rec")]), ("f", "zz"))),
+        ("unhandled-select", ("select", ("call", ("sym", "idf"), [("str", "zz")]), None, [("a", ("int", 1))])),
     ]
 
 
@@ -95,7 +116,9 @@ def mark(stoks, idx):
 
 def build_case(probe, r, nvalid, kind, ftoks, host, pos):
     """-> (token list with stmt marks, fault stmt index, call stmt index or None)"""
-    prelude = [["let", "idf", "=", "func", "(", "a", ")", "=>", "a", ";"], ["let", "seven", "=", "7", ";"]]
+    prelude = [["let", "idf", "=", "func", "(", "a", ")", "=>", "a", ";"], ["let", "seven", "=", "7", ";"],
+               ["let", "word", "=", "\"w\"", ";"], ["let", "yes", "=", "true", ";"],
+               ["let", "rec", "=", "{", "a", "=", "1", "}", ";"], ["let", "lst", "=", "[", "1", "]", ";"]]
     for attempt in range(8):
         stmts, _ = progs.gen_program(r, depth=2, nstmts=max(2, nvalid), p_bad=0.0, ascii_only=True)
         stmts = [s for s in stmts if s[0] == "let"]
@@ -115,7 +138,7 @@ def build_case(probe, r, nvalid, kind, ftoks, host, pos):
     fstmt, cstmt = host_tokens(host, "flt", ftoks, r)
     pos = min(pos, len(valid))
     seq = prelude + valid[:pos] + [fstmt] + valid[pos:]
-    fidx = 2 + pos
+    fidx = len(prelude) + pos
     cidx = None
     if cstmt is not None:
         # the call comes somewhere later
